@@ -8,6 +8,10 @@ Call lines (answer: the file-system operations the call issues, then `ok` / `err
   kopen                                    keys <k1,k2,...>
  tokens: c:<p> create/truncate, w:<p>:<bytes> one write (w:s<i>:* = the buffered snapshot writes),
          r:<a>><b> rename; paths d<i> data file, s<i> .snapshotting, k translate log.
+`restart <k>`: the process is killed right after operation k (clamped to the last one) and started
+again on what is on disk, leftover `.snapshotting` files in place (a long one is planted where the
+kill left none, plus `.copying` / `.temp` files); the answer is what the new process finds; the calls
+and `crash` lines that follow belong to the new process generation.
 `crash <k>`: what `Open` finds after a kill right after file-system operation k of the whole
 history: `d0=[..] d1=… k=[key:id …]`, `err` in place of a value that does not open, `end` past the
 last operation.  `#spec`: the same when it is one of the allowed states (Spec.lean), else
@@ -84,17 +88,17 @@ def tagOf (r : Run) (k : Nat) : String :=
 
 def crashLine (r : Run) (k : Nat) : Ans :=
   if k > r.trace.length then ans "end" else
-  let d := crashAt r.trace k
+  let d := r.crashDisk k
   let n := r.sys.frags.length
   let model := (List.range n).map (fun i =>
     s!"d{i}=" ++ (match recoverFrag d i with | none => "err" | some b => showNats b))
   let spec := (List.range n).map (fun i =>
-    let al := allowedBits r.marks k i
+    let al := allowedBits r.start r.marks k i
     s!"d{i}=" ++ (match recoverFrag d i with
       | some b => if al.contains b then showNats b else "|".intercalate (dedupStr (al.map showNats))
       | none => "|".intercalate (dedupStr (al.map showNats))))
   let km := "k=" ++ (match recoverKeys d with | none => "err" | some m => showKeys m)
-  let ks := "k=" ++ (let al := allowedKeys r.marks k
+  let ks := "k=" ++ (let al := allowedKeys r.start r.marks k
     match recoverKeys d with
     | some m => if al.contains m then showKeys m else "|".intercalate (dedupStr (al.map showKeys))
     | none => "|".intercalate (dedupStr (al.map showKeys)))
@@ -103,6 +107,11 @@ def crashLine (r : Run) (k : Nat) : Ans :=
 def step (r : Run) (ws : List String) : Run × Ans :=
   match ws with
   | ["crash", k] => (match k.toNat? with | some k => (r, crashLine r k) | none => (r, ans "bad-op"))
+  | ["restart", k] =>
+      (match k.toNat? with
+       | some k => let k' := min k r.trace.length
+                   (r.restart k', crashLine r k')
+       | none => (r, ans "bad-op"))
   | _ =>
     match parseOp ws with
     | none => (r, ans "bad-op")
